@@ -7,7 +7,7 @@ EDIT_WEIGHTS = [('DeleteVerts', 5), ('AddNode', 3), ('DeleteNode', 1), ('DeleteS
                 ('DeleteShader', 1), ('AlphaProperty', 1), ('SetParentNode', 2), ('PrettySort', 1), ('Optimize', 1), ('TrimTexturePaths', 1),
                 ('FixBSXFlags', 1), ('FixShaderFlags', 1), ('DeleteUnreferenced', 1), ('OptimizeFor', 1),
                 ('ShapeSetTriangles', 3), ('ShapeSetBounds', 2), ('ShapeToggleColors', 1), ('ShapeUpdateBounds', 2), ('SetTexturePath', 1), ('ReplaceWithClone', 2),
-                ('MoveBlocks', 2), ('UnlinkFromNode', 2), ('RebuildRefArray', 2)]
+                ('MoveBlocks', 2), ('UnlinkFromNode', 2), ('RebuildRefArray', 2), ('SetExportInfo', 1), ('DeleteUnreferencedTyped', 1)]
 
 
 def edit_step(rng, tier='quick', allow=None, version_hint=None):
